@@ -31,6 +31,15 @@ PROPS = {
     "C05": dict(mode="model", profile="ttl", **tiers(1500, 60, 40000, 120),
                 rule=GEN_RULE + "non-trivial = at least one hit within 1 ms before the deadline and at least one write that moved an existing deadline",
                 needs=["hits_within_1ms_of_deadline", "writes_moving_a_deadline"]),
+    "C07": dict(driver="race", mode="pairwise",
+                quick={"iters": 30, "reps": 1, "programs": 40, "prog_ops": 25},
+                thorough={"iters": 300, "reps": 3, "programs": 2000, "prog_ops": 40},
+                rule="for every container (thread_safe::yes) every unordered pair {A,B} of public member functions incl. A=B is run on two free threads released together, "
+                     "each calling its method `iters` times with generated arguments over a shared small key universe after a generated prefix that fills the container and "
+                     "expires part of it (complete matrix; thorough adds 3-4 thread random programs); distinct = (container, A, B, seed); "
+                     "non-trivial = both threads finished, their execution windows overlapped in wall-clock time and at least one call took a hit path",
+                assumptions=["ThreadSanitizer sees only instrumented code: accesses inside libstdc++.so (list splice, rb-tree rebalance) are invisible, header code (hash lookup, element fields, counters) is visible",
+                             "the OS scheduler decides the interleaving; detection is happens-before based and does not need the accesses to overlap in time"]),
     "C08": dict(mode="model", profile="general", **tiers(3000, 100, 30000, 200, q_fuzz_s=20, t_fuzz_s=240),
                 rule=GEN_RULE + "plus libFuzzer byte strings decoded to cases (16 jobs, one container kind each); the monitor is ASan + UBSan + libstdc++ checked iterators + "
                 "the Tracked value type (self pointer, magic, owned heap block, live-instance counter that must return to its baseline when the container is destroyed); "
@@ -101,6 +110,9 @@ MANIFEST_TEXT = {
     "C03": _mt(_E1, _PBT + "the model's permitted-loss rule (peek scan of all live keys after every call)", "bounded exploration; every loss of a live key must be one the statement permits", _NOTE_MODEL, "DESIGN.md 5/C03"),
     "C04": _mt(_E1, _PBT + "the model's deadlines on a harness-owned clock (exact-deadline and +-1 ns probes)", "bounded exploration with constructed boundary instants", _NOTE_MODEL, "DESIGN.md 5/C04"),
     "C05": _mt(_E1, _PBT + "the model's deadlines on a harness-owned clock (deadline-1 ns probes, deadline-moving writes)", "bounded exploration with constructed boundary instants", _NOTE_MODEL, "DESIGN.md 5/C05"),
+    "C07": _mt("E4 race", "dynamic race detection (ThreadSanitizer happens-before) over the completely enumerated public method-pair matrix with generated arguments and prefixes, plus generated multi-thread programs",
+               "bounded exploration: the pair matrix is complete, argument space and schedules are sampled; a report is a data race in the C++ memory model on the executed path",
+               "trusted: ThreadSanitizer (clang 14), uninstrumented libstdc++.so is invisible; hooks off (production headers)", "DESIGN.md 6.2"),
     "C08": _mt("E1 seq + E2 fuzz", "fuzzing (libFuzzer, structure-aware byte decoder) and property-based testing (rapidcheck) with ASan + UBSan + libstdc++ debug-mode iterators + an instrumented value type as the monitor",
                "bounded exploration: sanitizers see only the executions run; all ten containers x both thread_safe modes x Tracked and std::string values", "trusted: sanitizer runtimes, libstdc++ debug mode, src/values.hpp Tracked accounting; no MSan", "DESIGN.md 5/C08"),
     "C09": _mt(_E1, _PBT + "the model's allow-mode table; insert_range decided by enumerating every outcome the single inserts permit", "bounded exploration over key histories x allow modes", _NOTE_MODEL, "DESIGN.md 5/C09"),
@@ -120,5 +132,4 @@ MANIFEST_TEXT = {
 }
 NOT_APPLICABLE = [
     {"property_id": "C06", "reason": "check under construction in this round (schedule engine E3); will be claimed once built"},
-    {"property_id": "C07", "reason": "check under construction in this round (TSan engine E4); will be claimed once built"},
 ]
